@@ -75,6 +75,10 @@ def merge(cond, a, b):
     from .interp import PyList
     if a is b:
         return a
+    if type(a).__name__ == "NPScalar":
+        a = a.term
+    if type(b).__name__ == "NPScalar":
+        b = b.term
     if is_z3(a) or is_z3(b) or isinstance(a, (bool, int)) and isinstance(b, (bool, int)):
         if not is_z3(a) and not is_z3(b) and a == b and type(a) is type(b):
             return a
